@@ -463,7 +463,7 @@ func c07Fresh(c *Ctx, rule string) {
 // isOwnStateParam: parameter types that are the module's own state, not caller data.
 func isOwnStateParam(c *Ctx, t types.Type) bool {
 	switch typeName(t) {
-	case "Runner", "Parser", "Scanner", "referenceResovle":
+	case "Runner", "Parser", "Scanner", c.P.alias("referenceResovle"):
 		return true
 	}
 	return isTreeType(c, t)
